@@ -924,6 +924,8 @@ def _value_integrity(model, rep):
     nfun = 0
     INDEXY = ("dofs", "rows", "cols", "indices", "ix", "find", "tind",
               "elements", "facets", "nodes")
+    # coordinates are real by nature: casting them is not a loss
+    COORDS = {"x", "y", "z", "X", "Y", "p", "points", "doflocs", "pts"}
     for fn in model.all_functions():
         if not fn.path.startswith("skfem/assembly/"):
             continue
@@ -932,7 +934,8 @@ def _value_integrity(model, rep):
         # names holding user values: parameters and what is computed from
         # them (one forward pass, flow-insensitive)
         val = {p_ for p_ in params
-               if not any(k in p_.lower() for k in INDEXY)}
+               if not any(k in p_.lower() for k in INDEXY)
+               and p_ not in COORDS}
         for st in sorted([n for n in walk_no_nested(fn.node)
                           if isinstance(n, ast.Assign)],
                          key=lambda n: n.lineno):
